@@ -85,6 +85,7 @@ type Explorer struct {
 	ModelsHit   map[string]bool
 	MaxVectors  int
 	pathSeen    int64
+	vecPerID    map[string]int
 	pathIdx     []int
 	vrng        *rand.Rand
 	queryNo     int64
@@ -690,7 +691,15 @@ func (p *Path) emitVector(m sym.Model, purpose, id string, prefix bool) {
 	}
 	ex.resMu.Lock()
 	if purpose != "path" {
-		ex.Vectors = append(ex.Vectors, v)
+		// at most 64 vectors per obligation and purpose are kept for native replay (three are
+		// reported); the counts in the obligation table are unaffected
+		if ex.vecPerID == nil {
+			ex.vecPerID = map[string]int{}
+		}
+		ex.vecPerID[purpose+"/"+id]++
+		if ex.vecPerID[purpose+"/"+id] <= 64 {
+			ex.Vectors = append(ex.Vectors, v)
+		}
 	} else {
 		// the path vectors replayed natively are a uniform sample of all paths (reservoir),
 		// not the first MaxVectors in exploration order
